@@ -67,7 +67,7 @@ func portionOf(tid uint64, n int) int {
 // span alphabet
 
 // attribute values: missing / numeric (integer and %f-rendered double, as the writer stores them) / non-numeric
-var aValues = []string{"", "5", "7.500000", "foo", "xfoox"}
+var aValues = []string{"", "5", "7.500000", "foo", "xfoox", `q'\z`}
 var bValues = []string{"", "10", "bar"}
 var names = []string{"op1", "op2"}
 
@@ -86,8 +86,8 @@ func mkAttrs(a, b string) map[string]string {
 }
 
 // universalA: every span type (a value x b value x name x duration) as a single-span trace.  Odd traces lie in the
-// first half of the time line, even ones in the second half, so a half window cuts the types evenly.  One query
-// execution decides the per-span semantics for all 90 types at once.
+// time line, so the half and early windows cut the types.  One query execution decides the per-span semantics for
+// all 108 types at once.
 func universalA() *Database {
 	var traces []Trace
 	id := uint64(0)
@@ -176,6 +176,7 @@ func universalWindows() []Window {
 	return []Window{
 		{"full", T0 - 1_000_000*slotNS, T0 + 1_000_000*slotNS},
 		{"half", T0 + slotNS/2, T0 + 1_000_000*slotNS},
+		{"early", T0 - 1_000_000*slotNS, T0 - 5*slotNS}, // ends on the previous UTC day
 	}
 }
 
@@ -188,11 +189,16 @@ type smallCfg struct {
 	idSets                        [][]uint64 // trace-id assignments (hash portions differ)
 }
 
-// smallDBs enumerates the family.  Span j of the time line sits at slot j+1 (T0 + (j+1)*slotNS): windows are cut
+// smallSpecs enumerates the family.  Span j of the time line sits at slot j+1 (T0 + (j+1)*slotNS): windows are cut
 // relative to slots.  Attribute a is "x" (the span matches {.a = "x"}) or "y"; b = slot number (numeric), duration =
 // 1s for x spans with odd slot else 2s.
-func smallDBs(cfg smallCfg) []*Database {
-	var out []*Database
+type smallSpec struct {
+	name   string
+	traces []Trace
+}
+
+func smallSpecs(cfg smallCfg) []smallSpec {
+	var out []smallSpec
 	var shapes [][]int // spans per trace, non-increasing is NOT imposed (traces are ordered by first span instead)
 	var recShape func(cur []int, total int)
 	recShape = func(cur []int, total int) {
@@ -259,7 +265,7 @@ func smallDBs(cfg smallCfg) []*Database {
 							Attrs: map[string]string{"a": a, "b": fmt.Sprint(j + 1)}})
 						fmt.Fprintf(&desc, "%d%s", t+1, a)
 					}
-					out = append(out, newDatabase(fmt.Sprintf("S:%s#%d", desc.String(), is), traces))
+					out = append(out, smallSpec{fmt.Sprintf("S:%s#%d", desc.String(), is), traces})
 				}
 			}
 		}
